@@ -84,6 +84,8 @@ func (e *evidence) write(path string) error {
 		"samples":             e.samples,
 		"exhaustive":          e.plan.Exhaustive,
 		"runs_per_hour":       int(perHour),
+		"seeds_per_hour":      int(perHour),
+		"distinct_measure":    "distinct_nontrivial counts distinct case signatures (see rule); distinct_schedules counts distinct hashes of the consumed scheduler tape",
 		"simulated_time_ns":   e.simNs,
 		"faults_fired":        faults,
 		"probes":              probes,
